@@ -209,5 +209,367 @@ Lemma parse_layout Y1 Y2 Y3 Y4 M1 M2 D1 D2 H1 H2 I1 I2 S1 S2 neg A1 A2 B1 B2 C1 
   parse_fields (if ends_with_Z t then replace_Z t else t)
   = Some (raw_of Y1 Y2 Y3 Y4 M1 M2 D1 D2 H1 H2 I1 I2 S1 S2 neg A1 A2 B1 B2 C1 C2 sh).
 Proof.
-  destruct sh as [[|] [| |[| | | | |]] [| | |]]; destruct neg; vm_compute; reflexivity.
+  destruct sh as [[|] [| |[| | | | |]] [| | |]]; destruct neg; cbv -[Z.add Z.mul]; reflexivity.
+Qed.
+
+(* ------------------------------------------------------------------ from the rendered text to the laid-out tokens *)
+Definition is_d (v : Z) : Prop := 0 <= v <= 9.
+
+Lemma classify_dch v : is_d v -> classify (dch v) = Dg v.
+Proof.
+  unfold is_d. intros H.
+  assert (C : v = 0 \/ v = 1 \/ v = 2 \/ v = 3 \/ v = 4 \/ v = 5 \/ v = 6 \/ v = 7 \/ v = 8 \/ v = 9) by lia.
+  repeat (destruct C as [C|C]; [subst v; reflexivity|]). subst v; reflexivity.
+Qed.
+
+Lemma n2_digits n : n2 (n / 10) (n mod 10) = n.
+Proof. unfold n2. lia. Qed.
+Lemma n4_digits n : n4 (n / 1000) ((n / 100) mod 10) ((n / 10) mod 10) (n mod 10) = n.
+Proof. unfold n4. lia. Qed.
+
+Definition idN (c : N) : N := c.
+
+Lemma classify_layout Y1 Y2 Y3 Y4 M1 M2 D1 D2 H1 H2 I1 I2 S1 S2 neg A1 A2 B1 B2 C1 C2 sh :
+  is_d Y1 -> is_d Y2 -> is_d Y3 -> is_d Y4 -> is_d M1 -> is_d M2 -> is_d D1 -> is_d D2 ->
+  is_d H1 -> is_d H2 -> is_d I1 -> is_d I2 -> is_d S1 -> is_d S2 ->
+  is_d A1 -> is_d A2 -> is_d B1 -> is_d B2 -> is_d C1 -> is_d C2 ->
+  map classify (layout N dch idN Y1 Y2 Y3 Y4 M1 M2 D1 D2 H1 H2 I1 I2 S1 S2 neg A1 A2 B1 B2 C1 C2 sh)
+  = layout tk Dg Ch Y1 Y2 Y3 Y4 M1 M2 D1 D2 H1 H2 I1 I2 S1 S2 neg A1 A2 B1 B2 C1 C2 sh.
+Proof.
+  intros. assert (Z0 : is_d 0) by (unfold is_d; lia).
+  destruct sh as [[|] [| |[| | | | |]] [| | |]]; destruct neg;
+    unfold layout, lay_sec, lay_off, lay_frac; cbn [map app sh_sep sh_sec sh_off];
+    rewrite ?classify_dch by assumption; reflexivity.
+Qed.
+
+(* the digits of the fields of [render] *)
+Definition lay_of (A : Type) (dg : Z -> A) (ch : N -> A) (Y M D hh mi ss o : Z) (sh : shape) : list A :=
+  let a := Z.abs o in
+  layout A dg ch (Y / 1000) ((Y / 100) mod 10) ((Y / 10) mod 10) (Y mod 10) (M / 10) (M mod 10) (D / 10) (D mod 10)
+    (hh / 10) (hh mod 10) (mi / 10) (mi mod 10) (ss / 10) (ss mod 10) (o <? 0)
+    (a / 3600 / 10) ((a / 3600) mod 10) ((a / 60) mod 60 / 10) (((a / 60) mod 60) mod 10) ((a mod 60) / 10) ((a mod 60) mod 10) sh.
+
+Lemma render_layout t o sh Y M D : civil_from_days ((t + o) / 86400) = (Y, M, D) ->
+  render t o sh
+  = lay_of N dch idN Y M D ((t + o) mod 86400 / 3600) (((t + o) mod 86400 / 60) mod 60) (((t + o) mod 86400) mod 60) o sh.
+Proof.
+  intros E. unfold render. rewrite E.
+  destruct sh as [[|] [| |[| | | | |]] [| | |]]; reflexivity.
+Qed.
+
+(* ------------------------------------------------------------------ building the datetime *)
+Lemma build_ymd y m d vals us tzr off :
+  date_ok y m d = true -> time_ok (nthz vals 0) (nthz vals 1) (nthz vals 2) us = true -> tz_offset_us tzr = Some off ->
+  build {| rd_date := YMD y m d; rd_time := Some {| rt_vals := vals; rt_us := us; rt_tz := Some tzr |} |}
+  = Some {| dt_y := y; dt_mo := m; dt_d := d; dt_h := nthz vals 0; dt_mi := nthz vals 1; dt_s := nthz vals 2;
+            dt_us := us; dt_off := Some off |}.
+Proof.
+  intros H1 H2 H3. unfold build. cbn [resolve_date rd_date rd_time rt_vals rt_us rt_tz].
+  rewrite H3. cbn [option_map]. rewrite H1, H2. reflexivity.
+Qed.
+
+Lemma tz_offset_written (neg : bool) (vals : list Z) (o : Z) :
+  (if neg then -1 else 1) * (nthz vals 0 * 3600 + nthz vals 1 * 60 + nthz vals 2) = o -> -86400 < o < 86400 ->
+  tz_offset_us {| tz_neg := neg; tz_vals := vals; tz_us := 0 |} = Some (o * us_per_s).
+Proof.
+  intros Hs Ho. unfold tz_offset_us. cbn [tz_neg tz_vals tz_us]. rewrite Hs.
+  destruct (Z.eqb_spec o 0) as [E|NE]; [rewrite E; reflexivity|].
+  unfold us_per_s.
+  destruct (Z.ltb_spec (- (86400 * 1000000)) (o * 1000000 + (if neg then -1 else 1) * 0)) as [L1|L1];
+    destruct (Z.ltb_spec (o * 1000000 + (if neg then -1 else 1) * 0) (86400 * 1000000)) as [L2|L2];
+    cbn [andb]; destruct neg; try lia; f_equal; lia.
+Qed.
+
+Lemma date_ok_intro y m d : 1 <= y <= 9999 -> 1 <= m <= 12 -> 1 <= d <= days_in_month y m -> date_ok y m d = true.
+Proof.
+  intros Hy Hm Hd. unfold date_ok. repeat (apply andb_true_iff; split); apply Z.leb_le; lia.
+Qed.
+Lemma time_ok_intro h mi s : 0 <= h <= 23 -> 0 <= mi <= 59 -> 0 <= s <= 59 -> time_ok h mi s 0 = true.
+Proof.
+  intros Hh Hm Hs. unfold time_ok. repeat (apply andb_true_iff; split); apply Z.leb_le; lia.
+Qed.
+
+Definition pad_body (s : text) : parsed :=
+  let t := map classify s in
+  let t := if ends_with_Z t then replace_Z t else t in
+  match fromisoformat t with
+  | None => PErr
+  | Some d => match dt_off d with None => PErr | Some o => PDate d o end
+  end.
+Lemma pad_nonempty s : s <> [] -> parse_as_datetime s = pad_body s.
+Proof. destruct s; [congruence|reflexivity]. Qed.
+
+(* the datetime a rendered string denotes *)
+Definition dt_of (Y M D tod o : Z) : dt :=
+  {| dt_y := Y; dt_mo := M; dt_d := D; dt_h := tod / 3600; dt_mi := (tod / 60) mod 60; dt_s := tod mod 60; dt_us := 0;
+     dt_off := Some (o * us_per_s) |}.
+
+Lemma parse_rendered t o sh Y M D :
+  -86400 < o < 86400 -> shape_ok sh t o ->
+  civil_from_days ((t + o) / 86400) = (Y, M, D) ->
+  1 <= Y <= 9999 -> 1 <= M <= 12 -> 1 <= D <= days_in_month Y M ->
+  parse_as_datetime (render t o sh) = PDate (dt_of Y M D ((t + o) mod 86400) o) (o * us_per_s).
+Proof.
+  intros Ho (Hsec & HZ & HmZ & HHM) E HY HM HD.
+  rewrite (render_layout t o sh Y M D E).
+  set (tod := (t + o) mod 86400). assert (Htod : 0 <= tod < 86400) by (subst tod; lia).
+  assert (HD' : 1 <= D <= 31).
+  { unfold days_in_month in HD. destruct (M =? 2); [destruct (is_leap Y)|destruct (_ || _)]; lia. }
+  rewrite pad_nonempty by (unfold lay_of, layout; discriminate).
+  unfold pad_body, lay_of.
+  rewrite classify_layout by (unfold is_d; lia).
+  cbv zeta.
+  match goal with |- context [fromisoformat (if ends_with_Z ?x then replace_Z ?x else ?x)] =>
+    unfold fromisoformat;
+    match x with layout tk Dg Ch ?a1 ?a2 ?a3 ?a4 ?a5 ?a6 ?a7 ?a8 ?a9 ?a10 ?a11 ?a12 ?a13 ?a14 ?a15 ?a16 ?a17 ?a18 ?a19 ?a20 ?a21 ?a22 =>
+      pose proof (parse_layout a1 a2 a3 a4 a5 a6 a7 a8 a9 a10 a11 a12 a13 a14 a15 a16 a17 a18 a19 a20 a21 a22) as P
+    end
+  end.
+  cbv zeta in P. rewrite P. clear P.
+  unfold raw_of. rewrite !n2_digits, n4_digits.
+  set (vals := tod / 3600 :: (tod / 60) mod 60 :: match sh_sec sh with NoSecs => [] | _ => [tod mod 60] end).
+  assert (V0 : nthz vals 0 = tod / 3600) by reflexivity.
+  assert (V1 : nthz vals 1 = (tod / 60) mod 60) by reflexivity.
+  assert (V2 : nthz vals 2 = tod mod 60).
+  { subst vals. destruct (sh_sec sh) eqn:Es; try reflexivity. unfold nthz; cbn [nth]. specialize (Hsec eq_refl). subst tod. lia. }
+  assert (TZ : tz_offset_us
+                 match sh_off sh with
+                 | OffZ => {| tz_neg := false; tz_vals := [0; 0]; tz_us := 0 |}
+                 | OffMinusZero => {| tz_neg := true; tz_vals := [0; 0]; tz_us := 0 |}
+                 | OffHM => {| tz_neg := o <? 0; tz_vals := [Z.abs o / 3600; (Z.abs o / 60) mod 60]; tz_us := 0 |}
+                 | OffHMS => {| tz_neg := o <? 0; tz_vals := [Z.abs o / 3600; (Z.abs o / 60) mod 60; Z.abs o mod 60]; tz_us := 0 |}
+                 end = Some (o * us_per_s)).
+  { destruct (sh_off sh) eqn:Eo.
+    - rewrite (HZ eq_refl). reflexivity.
+    - rewrite (HmZ eq_refl). reflexivity.
+    - specialize (HHM eq_refl). apply tz_offset_written; [|exact Ho]. unfold nthz; cbn [nth].
+      destruct (Z.ltb_spec o 0); lia.
+    - apply tz_offset_written; [|exact Ho]. unfold nthz; cbn [nth]. destruct (Z.ltb_spec o 0); lia. }
+  rewrite (build_ymd Y M D vals 0 _ _ (date_ok_intro Y M D HY HM HD)
+             ltac:(rewrite V0, V1, V2; apply time_ok_intro; lia) TZ).
+  rewrite V0, V1, V2. reflexivity.
+Qed.
+
+(* ------------------------------------------------------------------ astimezone(berlin) on a rendered instant *)
+Lemma min_max_us : min_us = -62135596800000000 /\ max_us = 253402300800000000.
+Proof. split; vm_compute; reflexivity. Qed.
+
+Lemma in_dt_range_near t off : in_range t -> 0 <= off <= 7200 -> in_dt_range ((t + off) * us_per_s) = true.
+Proof.
+  unfold in_range, t_min, t_max, in_dt_range. destruct min_max_us as [-> ->]. unfold us_per_s. intros Ht Ho.
+  apply andb_true_iff; split; [apply Z.leb_le|apply Z.ltb_lt]; lia.
+Qed.
+
+Lemma local_us_of Y M D tod o l :
+  days_from_civil Y M D = l / 86400 -> tod = l mod 86400 -> local_us (dt_of Y M D tod o) = l * us_per_s.
+Proof.
+  intros Hd Ht. unfold local_us, dt_of. cbn [dt_y dt_mo dt_d dt_h dt_mi dt_s dt_us]. rewrite Hd. unfold us_per_s. lia.
+Qed.
+
+Lemma to_berlin_rendered t o Y M D :
+  in_range t -> days_from_civil Y M D = (t + o) / 86400 ->
+  to_berlin (dt_of Y M D ((t + o) mod 86400) o) (o * us_per_s) = Ok ((t + eu_offset t) * us_per_s).
+Proof.
+  intros Ht Hd. unfold to_berlin. rewrite (local_us_of Y M D _ o (t + o) Hd eq_refl).
+  replace ((t + o) * us_per_s - o * us_per_s) with ((t + 0) * us_per_s) by (unfold us_per_s; lia).
+  rewrite (in_dt_range_near t 0 Ht) by lia. cbn [negb].
+  replace ((t + 0) * us_per_s / us_per_s) with t by (unfold us_per_s; lia).
+  rewrite (table_is_eu_rule t Ht).
+  replace ((t + 0) * us_per_s + eu_offset t * us_per_s) with ((t + eu_offset t) * us_per_s) by (unfold us_per_s; lia).
+  rewrite (in_dt_range_near t (eu_offset t) Ht) by (destruct (eu_offset_values t) as [-> | ->]; lia).
+  reflexivity.
+Qed.
+
+Lemma hms_is_tod tod k : 0 <= tod < 86400 -> 0 <= k < 24 ->
+  ((tod / 3600 =? k) && ((tod / 60) mod 60 =? 0) && (tod mod 60 =? 0)) = (tod =? k * 3600).
+Proof.
+  intros Ht Hk.
+  destruct (Z.eqb_spec (tod / 3600) k); destruct (Z.eqb_spec ((tod / 60) mod 60) 0); destruct (Z.eqb_spec (tod mod 60) 0);
+    destruct (Z.eqb_spec tod (k * 3600)); cbn [andb]; try reflexivity; exfalso; lia.
+Qed.
+
+Lemma limits_rendered t o Y M D :
+  in_range t -> days_from_civil Y M D = (t + o) / 86400 ->
+  let d := dt_of Y M D ((t + o) mod 86400) o in
+  is_stromtag_limit d (o * us_per_s) = Ok ((t + eu_offset t) mod 86400 =? 0) /\
+  is_gastag_limit d (o * us_per_s) = Ok ((t + eu_offset t) mod 86400 =? 21600).
+Proof.
+  intros Ht Hd d. unfold is_stromtag_limit, is_gastag_limit, german_local_time. subst d.
+  rewrite (to_berlin_rendered t o Y M D Ht Hd). cbn [bind].
+  replace ((t + eu_offset t) * us_per_s / us_per_s) with (t + eu_offset t) by (unfold us_per_s; lia).
+  set (tod := (t + eu_offset t) mod 86400). assert (Htod : 0 <= tod < 86400) by (subst tod; lia).
+  split; f_equal.
+  - apply (hms_is_tod tod 0 Htod). lia.
+  - apply (hms_is_tod tod 6 Htod). lia.
+Qed.
+
+(* ------------------------------------------------------------------ the theorems of C20 *)
+Lemma rendered_date_facts t o : in_range t -> -86400 < o < 86400 ->
+  exists Y M D, civil_from_days ((t + o) / 86400) = (Y, M, D) /\ days_from_civil Y M D = (t + o) / 86400 /\
+    1 <= Y <= 9999 /\ 1 <= M <= 12 /\ 1 <= D <= days_in_month Y M.
+Proof.
+  unfold in_range, t_min, t_max. intros Ht Ho.
+  assert (Hz : day_lo <= (t + o) / 86400 <= day_hi) by (unfold day_lo, day_hi; lia).
+  destruct (day_facts _ Hz) as (Y & M & D & E & R & _ & HY & HM & HD).
+  exists Y, M, D. repeat split; try assumption; lia.
+Qed.
+
+Lemma strom_gas t o sh : in_range t -> -86400 < o < 86400 -> shape_ok sh t o ->
+  eval_932 (render t o sh) = Ok (verdict_of ((t + eu_offset t) mod 86400 =? 0)) /\
+  eval_933 (render t o sh) = Ok (verdict_of ((t + eu_offset t) mod 86400 =? 0)) /\
+  eval_934 (render t o sh) = Ok (verdict_of ((t + eu_offset t) mod 86400 =? 21600)) /\
+  eval_935 (render t o sh) = Ok (verdict_of ((t + eu_offset t) mod 86400 =? 21600)).
+Proof.
+  intros Ht Ho Hsh.
+  destruct (rendered_date_facts t o Ht Ho) as (Y & M & D & E & R & HY & HM & HD).
+  pose proof (parse_rendered t o sh Y M D Ho Hsh E HY HM HD) as P.
+  destruct (limits_rendered t o Y M D Ht R) as [LS LG].
+  unfold eval_932, eval_933, eval_934, eval_935, is_xtag_limit. rewrite P, LS, LG. repeat split.
+Qed.
+
+Lemma offset_invariant t o1 o2 sh1 sh2 : in_range t ->
+  -86400 < o1 < 86400 -> -86400 < o2 < 86400 -> shape_ok sh1 t o1 -> shape_ok sh2 t o2 ->
+  eval_932 (render t o1 sh1) = eval_932 (render t o2 sh2) /\ eval_933 (render t o1 sh1) = eval_933 (render t o2 sh2) /\
+  eval_934 (render t o1 sh1) = eval_934 (render t o2 sh2) /\ eval_935 (render t o1 sh1) = eval_935 (render t o2 sh2).
+Proof.
+  intros Ht H1 H2 S1 S2.
+  destruct (strom_gas t o1 sh1 Ht H1 S1) as (A1 & A2 & A3 & A4).
+  destruct (strom_gas t o2 sh2 Ht H2 S2) as (B1 & B2 & B3 & B4).
+  rewrite A1, A2, A3, A4, B1, B2, B3, B4. repeat split.
+Qed.
+
+Lemma zero_offset t o sh : in_range t -> -86400 < o < 86400 -> shape_ok sh t o ->
+  eval_931 (render t o sh) = Ok (verdict_of (o =? 0)).
+Proof.
+  intros Ht Ho Hsh.
+  destruct (rendered_date_facts t o Ht Ho) as (Y & M & D & E & R & HY & HM & HD).
+  unfold eval_931, has_no_utc_offset. rewrite (parse_rendered t o sh Y M D Ho Hsh E HY HM HD).
+  do 2 f_equal. unfold us_per_s. destruct (Z.eqb_spec o 0); destruct (Z.eqb_spec (o * 1000000) 0); try reflexivity; lia.
+Qed.
+
+(* any string that is not parsed as an aware datetime: unfulfilled, with a message, by all five *)
+Lemma other_strings s : parse_as_datetime s = PErr ->
+  eval_931 s = Ok unfulfilled_v /\ eval_932 s = Ok unfulfilled_v /\ eval_933 s = Ok unfulfilled_v /\
+  eval_934 s = Ok unfulfilled_v /\ eval_935 s = Ok unfulfilled_v.
+Proof.
+  intros H. unfold eval_931, eval_932, eval_933, eval_934, eval_935, has_no_utc_offset, is_xtag_limit. rewrite H.
+  repeat split.
+Qed.
+
+(* when that is the case: the empty string, a ValueError of fromisoformat, or a naive datetime *)
+Lemma parse_err_cases s : parse_as_datetime s = PErr <->
+  s = [] \/ fromisoformat (let t := map classify s in if ends_with_Z t then replace_Z t else t) = None
+  \/ exists d, fromisoformat (let t := map classify s in if ends_with_Z t then replace_Z t else t) = Some d /\ dt_off d = None.
+Proof.
+  destruct s as [|c s]; [split; auto|].
+  rewrite pad_nonempty by discriminate. unfold pad_body. cbv zeta.
+  destruct (fromisoformat _) as [d|] eqn:F.
+  - destruct (dt_off d) eqn:O; split.
+    + discriminate.
+    + intros [H|[H|(d' & H1 & H2)]]; try discriminate. inversion H1; subst d'. congruence.
+    + intros _. right; right. now exists d.
+    + reflexivity.
+  - split; auto.
+Qed.
+
+Lemma to_berlin_exn d off e : to_berlin d off = Exn e -> e = Overflow.
+Proof.
+  unfold to_berlin. destruct (negb _); [intros H; now inversion H|].
+  destruct (negb _); intros H; now inversion H.
+Qed.
+
+Lemma xtag_never_raises s dv : is_xtag_limit s dv = Ok fulfilled_v \/ is_xtag_limit s dv = Ok unfulfilled_v.
+Proof.
+  unfold is_xtag_limit. destruct (parse_as_datetime s) as [|d o]; [now right|].
+  assert (K : forall r : result bool, (forall e, r = Exn e -> e = Overflow) ->
+              match r with Ok b => Ok (verdict_of b) | Exn Overflow => Ok unfulfilled_v | Exn e => Exn e end = Ok fulfilled_v
+              \/ match r with Ok b => Ok (verdict_of b) | Exn Overflow => Ok unfulfilled_v | Exn e => Exn e end = Ok unfulfilled_v).
+  { intros [b|e] He; [destruct b; auto|]. rewrite (He e eq_refl). now right. }
+  destruct dv; apply K; intros e; unfold is_stromtag_limit, is_gastag_limit, german_local_time;
+    destruct (to_berlin d o) as [bl|e'] eqn:T; cbn [bind]; try (destruct (_ , _) ; discriminate);
+    intros H; inversion H; subst; now apply (to_berlin_exn d o).
+Qed.
+
+Lemma never_raises s k : In k fc_keys ->
+  eval_93x k s = Ok fulfilled_v \/ eval_93x k s = Ok unfulfilled_v.
+Proof.
+  unfold fc_keys. intros [H|[H|[H|[H|[H|[]]]]]]; subst k; cbn [eval_93x N.eqb Pos.eqb];
+    unfold eval_931, eval_932, eval_933, eval_934, eval_935; try apply xtag_never_raises.
+  unfold has_no_utc_offset. destruct (parse_as_datetime s) as [|d o]; [now right|]. destruct (o =? 0); auto.
+Qed.
+
+(* ------------------------------------------------------------------ whatever the spelling: only the instant counts *)
+(* the instant an aware datetime denotes, in whole seconds since 1970-01-01T00:00:00Z (sub-second part dropped) *)
+Definition instant_of (d : dt) (off : Z) : Z := (local_us d - off) / us_per_s.
+
+Lemma in_dt_range_sub u off : in_range (u / us_per_s) -> 0 <= off <= 7200 -> in_dt_range (u + off * us_per_s) = true.
+Proof.
+  unfold in_range, t_min, t_max, in_dt_range. destruct min_max_us as [-> ->]. unfold us_per_s. intros Ht Ho.
+  apply andb_true_iff; split; [apply Z.leb_le|apply Z.ltb_lt]; lia.
+Qed.
+
+Lemma limits_of_instant d off : in_range (instant_of d off) ->
+  is_stromtag_limit d off = Ok ((instant_of d off + eu_offset (instant_of d off)) mod 86400 =? 0) /\
+  is_gastag_limit d off = Ok ((instant_of d off + eu_offset (instant_of d off)) mod 86400 =? 21600).
+Proof.
+  unfold instant_of. set (u := local_us d - off). set (t := u / us_per_s). intros Ht.
+  assert (TB : to_berlin d off = Ok (u + eu_offset t * us_per_s)).
+  { unfold to_berlin. fold u. replace u with (u + 0 * us_per_s) at 1 by lia.
+    rewrite (in_dt_range_sub u 0 Ht) by lia. cbn [negb]. fold t.
+    rewrite (table_is_eu_rule t Ht).
+    rewrite (in_dt_range_sub u (eu_offset t) Ht) by (destruct (eu_offset_values t) as [-> | ->]; lia).
+    reflexivity. }
+  unfold is_stromtag_limit, is_gastag_limit, german_local_time. rewrite TB. cbn [bind].
+  replace ((u + eu_offset t * us_per_s) / us_per_s) with (t + eu_offset t) by (subst t; unfold us_per_s; lia).
+  set (tod := (t + eu_offset t) mod 86400). assert (Htod : 0 <= tod < 86400) by (subst tod; lia).
+  split; f_equal.
+  - apply (hms_is_tod tod 0 Htod). lia.
+  - apply (hms_is_tod tod 6 Htod). lia.
+Qed.
+
+Lemma judges_instant s d off : parse_as_datetime s = PDate d off -> in_range (instant_of d off) ->
+  let t := instant_of d off in
+  eval_932 s = Ok (verdict_of ((t + eu_offset t) mod 86400 =? 0)) /\
+  eval_933 s = Ok (verdict_of ((t + eu_offset t) mod 86400 =? 0)) /\
+  eval_934 s = Ok (verdict_of ((t + eu_offset t) mod 86400 =? 21600)) /\
+  eval_935 s = Ok (verdict_of ((t + eu_offset t) mod 86400 =? 21600)) /\
+  eval_931 s = Ok (verdict_of (off =? 0)).
+Proof.
+  intros P Ht t. destruct (limits_of_instant d off Ht) as [LS LG].
+  unfold eval_931, eval_932, eval_933, eval_934, eval_935, is_xtag_limit, has_no_utc_offset. rewrite P, LS, LG.
+  repeat split.
+Qed.
+
+(* the rendered strings denote the instant they were rendered from *)
+Lemma rendered_instant t o sh : in_range t -> -86400 < o < 86400 -> shape_ok sh t o ->
+  exists d, parse_as_datetime (render t o sh) = PDate d (o * us_per_s) /\ instant_of d (o * us_per_s) = t.
+Proof.
+  intros Ht Ho Hsh.
+  destruct (rendered_date_facts t o Ht Ho) as (Y & M & D & E & R & HY & HM & HD).
+  exists (dt_of Y M D ((t + o) mod 86400) o). split; [exact (parse_rendered t o sh Y M D Ho Hsh E HY HM HD)|].
+  unfold instant_of. rewrite (local_us_of Y M D _ o (t + o) R eq_refl). unfold us_per_s. lia.
+Qed.
+
+(* ------------------------------------------------------------------ the hypotheses are satisfiable; witnesses *)
+Definition sh_example : shape := {| sh_sep := SepT; sh_sec := Secs; sh_off := OffHM |}.
+(* 2020-03-28T23:00:00Z is 2020-03-29T00:00:00 in Berlin (CET, one hour before the switch) *)
+Example example_hypotheses : in_range 1585436400 /\ -86400 < 7200 < 86400 /\ shape_ok sh_example 1585436400 7200.
+Proof. unfold in_range, t_min, t_max, shape_ok, sh_example; cbn. repeat split; try lia; discriminate. Qed.
+Example example_render :
+  render 1585436400 7200 sh_example
+  = [50;48;50;48;45;48;51;45;50;57;84;48;49;58;48;48;58;48;48;43;48;50;58;48;48]%N.   (* 2020-03-29T01:00:00+02:00 *)
+Proof. vm_compute. reflexivity. Qed.
+Example example_stromtag : eval_932 (render 1585436400 7200 sh_example) = Ok fulfilled_v
+  /\ eval_934 (render 1585436400 7200 sh_example) = Ok unfulfilled_v.
+Proof. split; vm_compute; reflexivity. Qed.
+(* the two inputs that the unrepaired source got wrong (known_findings.txt), as the current source answers them *)
+Example example_931_noon :   (* 2022-06-01T12:00:00+00:00 *)
+  eval_931 [50;48;50;50;45;48;54;45;48;49;84;49;50;58;48;48;58;48;48;43;48;48;58;48;48]%N = Ok fulfilled_v.
+Proof. vm_compute. reflexivity. Qed.
+Example example_overflow_reported :   (* 0001-01-01T00:00:00+05:00 parses, astimezone overflows, reported unfulfilled *)
+  let s := [48;48;48;49;45;48;49;45;48;49;84;48;48;58;48;48;58;48;48;43;48;53;58;48;48]%N in
+  (exists d o, parse_as_datetime s = PDate d o /\ to_berlin d o = Exn Overflow) /\ eval_932 s = Ok unfulfilled_v.
+Proof.
+  cbv zeta. split; [|vm_compute; reflexivity].
+  eexists; eexists; split; [vm_compute; reflexivity|vm_compute; reflexivity].
 Qed.
